@@ -173,6 +173,86 @@ theorem C03_single_site_dropped_block (rel abs : Nat) (A : Mesh) (hA : (wfEq A) 
     · exact hcm.2 h.symm
     · exact h1 hcm.1
 
+/-- removing any cell of any mesh makes it unequal to the original, in both roles -/
+theorem C03_single_site_removed_cell (rel abs : Nat) (A : Mesh) (hA : wfEq A = true) (ct : String) (c : Nat)
+    (hct : ct ∈ A.cellTypes) (hc : c < (A.cellsOf ct).length) :
+    meshEqualWith rel abs (removeCell A ct c) A ≠ .ok true ∧
+    meshEqualWith rel abs A (removeCell A ct c) ≠ .ok true := by
+  have hB : wfEq (removeCell A ct c) = true := by
+    apply wfEq_mapBlock A hA
+    intro rows hu _
+    exact uniform_of_width _ _ (fun r hr => hu r (List.mem_of_mem_eraseIdx hr))
+  have hty : (removeCell A ct c).cellTypes = A.cellTypes := cellTypes_mapBlock A ct _
+  have hcells : (removeCell A ct c).cellsOf ct = (A.cellsOf ct).eraseIdx c := cellsOf_mapBlock A ct _ hct
+  have hlen : ((removeCell A ct c).cellsOf ct).length ≠ (A.cellsOf ct).length := by
+    rw [hcells, List.length_eraseIdx_of_lt hc]; omega
+  constructor
+  · exact C03_single_site_cell_count rel abs _ A hB hA ct ct (hty ▸ hct) hct (Or.inl rfl) hlen
+  · exact C03_single_site_cell_count rel abs A _ hA hB ct ct hct (hty ▸ hct) (Or.inl rfl) (fun e => hlen e.symm)
+
+/-- adding a cell (of the block's corner count) to any mesh makes it unequal to the original, in both roles -/
+theorem C03_single_site_added_cell (rel abs : Nat) (A : Mesh) (hA : wfEq A = true) (ct : String) (row : List Nat)
+    (hct : ct ∈ A.cellTypes) (hrow : ∀ b ∈ A.cells, ∀ r ∈ b.2, b.1 = ct → r.length = row.length) :
+    meshEqualWith rel abs (addCell A ct row) A ≠ .ok true ∧
+    meshEqualWith rel abs A (addCell A ct row) ≠ .ok true := by
+  have hty : (addCell A ct row).cellTypes = A.cellTypes := cellTypes_mapBlock A ct _
+  have hcells : (addCell A ct row).cellsOf ct = A.cellsOf ct ++ [row] := cellsOf_mapBlock A ct _ hct
+  have hlen : ((addCell A ct row).cellsOf ct).length ≠ (A.cellsOf ct).length := by
+    rw [hcells]; simp
+  -- well-formedness of the enlarged mesh: blocks of type `ct` get a row of the common width
+  have hB : wfEq (addCell A ct row) = true := by
+    rw [wfEq_iff] at hA ⊢
+    obtain ⟨h1, h2, h3⟩ := hA
+    refine ⟨h1, by rw [hty]; exact h2, ?_⟩
+    intro b hb
+    unfold addCell mapBlock at hb
+    simp only at hb
+    obtain ⟨b0, hb0, rfl⟩ := List.mem_map.mp hb
+    split
+    · rename_i hbc
+      have hbc' : b0.1 = ct := by simpa using hbc
+      apply uniform_of_width _ row.length
+      intro r hr
+      rcases List.mem_append.mp hr with hr | hr
+      · exact hrow b0 hb0 r hr hbc'
+      · simp only [List.mem_singleton] at hr; rw [hr]
+    · exact h3 b0 hb0
+  have hA' : wfEq A = true := by assumption
+  constructor
+  · exact C03_single_site_cell_count rel abs _ A hB hA' ct ct (hty ▸ hct) hct (Or.inl rfl) hlen
+  · exact C03_single_site_cell_count rel abs A _ hA' hB ct ct hct (hty ▸ hct) (Or.inl rfl) (fun e => hlen e.symm)
+
+/-- rewiring corner `k` of cell `c` to a point `p` such that the cell no longer connects the same points
+    makes the mesh unequal to the original, in both roles -/
+theorem C03_single_site_rewired_corner (rel abs : Nat) (A : Mesh) (hA : wfEq A = true) (ct : String) (c k p : Nat)
+    (hct : ct ∈ A.cellTypes) (hc : c < (A.cellsOf ct).length)
+    (hreal : ¬ (((A.cellsOf ct).getD c []).set k p).Perm ((A.cellsOf ct).getD c [])) :
+    meshEqualWith rel abs (rewire A ct c k p) A ≠ .ok true ∧
+    meshEqualWith rel abs A (rewire A ct c k p) ≠ .ok true := by
+  have hB : wfEq (rewire A ct c k p) = true := by
+    apply wfEq_mapBlock A hA
+    intro rows hu _
+    apply uniform_of_width _ ((rows.head?.map List.length).getD 0)
+    intro r hr
+    by_cases hcl : c < rows.length
+    · rcases List.mem_or_eq_of_mem_set hr with hr | rfl
+      · exact hu r hr
+      · rw [List.length_set, List.getD_eq_getElem?_getD, List.getElem?_eq_getElem hcl]
+        exact hu _ (List.getElem_mem hcl)
+    · rw [List.set_eq_of_length_le (by omega)] at hr
+      exact hu r hr
+  have hty : (rewire A ct c k p).cellTypes = A.cellTypes := cellTypes_mapBlock A ct _
+  have hcells : (rewire A ct c k p).cellsOf ct = (A.cellsOf ct).set c (((A.cellsOf ct).getD c []).set k p) :=
+    cellsOf_mapBlock A ct _ hct
+  have hrow : ((rewire A ct c k p).cellsOf ct).getD c [] = ((A.cellsOf ct).getD c []).set k p := by
+    rw [hcells, List.getD_eq_getElem?_getD, List.getElem?_set_self hc]; rfl
+  have hlen : ((rewire A ct c k p).cellsOf ct).length = (A.cellsOf ct).length := by rw [hcells, List.length_set]
+  constructor
+  · exact C03_single_site_rewired rel abs _ A hB hA ct ct (hty ▸ hct) hct (Or.inl rfl) c (hlen ▸ hc)
+      (by rw [hrow]; exact hreal)
+  · exact C03_single_site_rewired rel abs A _ hA hB ct ct hct (hty ▸ hct) (Or.inl rfl) c hc
+      (by rw [hrow]; exact fun h => hreal h.symm)
+
 /-! ### the retry ladder -/
 
 /-- **C03 (ladder).**  Whatever the flags and whatever the outcome of the individual rungs, the result of
